@@ -21,6 +21,7 @@ import sys
 
 sys.path.insert(0, os.path.dirname(os.path.abspath(__file__)))
 import vlib
+import c18_stdlib
 from vlib import Check, Build, log
 
 PID = "C18"
@@ -1448,6 +1449,61 @@ def judge_run(run, g):
 
 
 SIGX = None
+SP_NAMES = {"N1": ("Paar", "S:Paar"), "N2": ("Kennung", "D:Kennung(Z)"), "N3": ("Titel", "A:Titel(T)"), "N4": ("T", "G")}
+SP_FORMS = ["value", "ref", "listvalue", "listref", "parenvalue", "parenlistvalue"]
+
+
+def spelling_leg(ck, model, sc, stats):
+    """exhaustive: every base type x every form of spelling. The words come from the model's [spelled]; parser.Parse (sigx)
+    must record exactly what the spelling means (direct judgement) and what the model's parse_reference_type yields."""
+    cases = [(bse, f) for bse in ["Z", "K", "B", "W", "C", "T", "V", "N1", "N2", "N3", "N4"] for f in SP_FORMS]
+    out = subprocess.run([model], input="".join("SP %s %s\n" % c for c in cases), capture_output=True, text=True, timeout=60).stdout.splitlines()
+    if len(out) != len(cases):
+        ck.broken_obligation("the extracted model does not answer the spelling queries", "\n".join(out[:5]))
+        return
+
+    def to_front(spec):
+        for n, (_, fr) in SP_NAMES.items():
+            spec = spec.replace(n, fr)
+        return spec
+    decls, rows = [], []
+    for i, ((bse, f), l) in enumerate(zip(cases, out)):
+        toks, parsed, meant = [x.strip() for x in l[3:].split("|")]
+        generic = bse == "N4"
+        if generic and f in ("value", "parenvalue", "parenlistvalue"):
+            continue   # a by-value type parameter is rejected for extern functions; "(T ...)" is looked up as a declared name
+        words = " ".join(SP_NAMES[w][0] if w in SP_NAMES else w for w in toks.split(" ")).replace("( ", "(").replace(" )", ")")
+        name = "sp_%d" % i
+        decls.append('Die öffentliche %sFunktion %s mit dem Parameter pa vom Typ %s, gibt nichts zurück,\nist in "sp.c" definiert\nund kann so benutzt werden:\n\t"%s <pa>"\n\n'
+                     % ("generische " if generic else "", name, words, name))
+        rows.append((name, bse, f, words, parsed, meant, decls[-1]))
+    d = os.path.join(sc, "spelling")
+    os.makedirs(d, exist_ok=True)
+    head = DECLS[:DECLS.index("Die öffentliche Funktion zeige_T")]
+    open(os.path.join(d, "sp.ddp"), "w").write(head + "".join(decls))
+    p = subprocess.run([SIGX, os.path.join(d, "sp.ddp")], capture_output=True, text=True, timeout=120)
+    table = {l.split(" ")[1]: l.split(" ")[5:] for l in p.stdout.splitlines() if l.startswith("F ")}
+    nerr = [l for l in p.stdout.splitlines() if l.startswith("E ")]
+    if p.returncode != 0 or not nerr:
+        ck.violation("frontend-spelling parse", "parser.Parse fails on the spelling module: %s" % (p.stdout + p.stderr)[-400:], dict(source=head + "".join(decls)))
+        return
+    for name, bse, f, words, parsed, meant, decl in rows:
+        ck.count()
+        ck.nontrivial(("spelling", bse, f))
+        got = table.get(name)
+        want = "pa:%s" % to_front(meant)
+        if got != [want]:
+            ck.violation("frontend-spelling base=%s form=%s" % (bse, f), "a parameter declared '%s' is recorded as %s (name:type:IsReference), it means %s" % (words, got, want),
+                         dict(declaration=decl, detail="sigx: %s" % got))
+        m = parsed.split(" ")
+        if not (len(m) == 3 and "pa:" + to_front(m[0]) == want and m[1] == "diag=0" and m[2] == "rest=1"):
+            stats["model_mismatch"].append("spelling '%s': model parses %s, meant %s" % (words, parsed, meant))
+        elif got is not None and got != ["pa:" + to_front(m[0])]:
+            stats["model_mismatch"].append("spelling '%s': model parses %s, parser.Parse records %s" % (words, parsed, got))
+    if int(nerr[0].split()[1]) != 0 and not ck.violations:
+        ck.violation("frontend-spelling diagnostics", "parser.Parse reports %s diagnostic(s) on declarations that only vary the spelling of parameter types" % nerr[0].split()[1],
+                     dict(source=head + "".join(decls)))
+    stats["spellings"] = len(rows)
 
 
 def judge_frontend(gdir, group):
@@ -1672,6 +1728,8 @@ def main():
         "ABI classes: LLVM i1 and C bool are identified (one byte holding 0/1; LLVM passes i1 without zeroext — the callee prints the raw byte it received), the vtable pointer is an untyped byte pointer; x86-64 SysV lowering of both sides by LLVM 14 and gcc is outside the model and only differentially tested",
         "kddp emits no zeroext/signext on i1/i8/i32 parameters and results; the callees here are compiled by gcc, which does not rely on the caller's extension of sub-register arguments (a clang-compiled callee would) — not exercised",
         "generic extern functions: modelled at parameter level (T Liste by value -> ddpgenericlist*, any Referenz mentioning T -> i8*, generic list result -> ddpgenericlist out-slot) and generated with T in {Zahl, Text}; the C callee learns T from a Zahl parameter; agreement with the header only up to untyped pointers (theorem C18_generic_sig_lowering_compat); Windows is outside the model and the generator",
+        "frontend: Lower/TypeSpelling.v transcribes parser.parseReferenceType for one type without type arguments (no 'Zahl-Vektor' forms, one level of parentheses); tied by harness/go/cmd/sigx (parser.Parse's parameter table) on every generated declaration and on the exhaustive base x form table",
+        "stdlib sweep: C harness generated from sigx tables of lib/stdlib/Duden (Regex, Komprimierung, Netzwerk, generic functions and Programm_Beenden/Warte/Lies_* skipped); Fehlerbehandlung callbacks are stubs; only crashes that the control call with \"x\" does not show are reported; Windows branches are not exercised",
         "caller-side ownership is observed through the --wrap=ddp_reallocate ledger and the block addresses the generated callee reports on stderr; sha256 of the module name is an opaque function in the mangling model (unmangled extern symbols are observed by the link step)",
     ]
     import time
@@ -1700,6 +1758,16 @@ def main():
     perr = header_probe(b, sc, model)
     if perr:
         ck.violation("header-layout", "the published header no longer has the representation the model (and the compiler) assume: " + perr, dict(detail=perr), no_input=False)
+
+    if SIGX:
+        spelling_leg(ck, model, sc, stats)
+    # the Duden's own C functions and the empty Text in both published representations
+    if SIGX and not ck.replay:
+        try:
+            c18_stdlib.sweep(ck, b, sc, SIGX, stats)
+        except Exception as e:
+            import traceback
+            ck.broken_obligation("stdlib sweep failed: %s" % e, traceback.format_exc()[-1500:])
 
     # replay mode
     if ck.replay:
@@ -1757,14 +1825,17 @@ def main():
         ck.broken_obligation("the caller-side releases do not follow the model's call plan (the direct ownership judgement holds): " + stats["model_ledger_disagreements"][0],
                              "\n".join(stats["model_ledger_disagreements"][:10]))
     ck.cov.update(dict(
-        signatures=len(stats["sigs"]), functions=len(fns), corpus_functions=stats.get("corpus_functions", 0), skipped_groups=stats.get("skipped_groups", 0), frontend_signatures_compared=stats.get("frontend_compared", 0), groups=len(groups), executed_programs=stats["runs"], ledger_events=stats["ledger_events"],
+        signatures=len(stats["sigs"]), functions=len(fns), corpus_functions=stats.get("corpus_functions", 0), skipped_groups=stats.get("skipped_groups", 0), frontend_signatures_compared=stats.get("frontend_compared", 0), spellings_exhaustive=stats.get("spellings", 0),
+        stdlib_sweep=dict(functions=stats.get("stdlib_functions_with_text"), text_parameters=stats.get("stdlib_text_parameters"), calls=stats.get("stdlib_calls"), crashes=stats.get("stdlib_crashes")), groups=len(groups), executed_programs=stats["runs"], ledger_events=stats["ledger_events"],
         model_cases=stats["model_cases"], ir_signatures_compared=stats["ir_compared"], arity=dict(sorted(stats["arity"].items())),
         param_kinds=dict(sorted(stats["param_kinds"].items())), ret_kinds=dict(sorted(stats["ret_kinds"].items())), exhaustive=False,
         rule="evaluation = one executed extern call (2 calls per function, both modules, per opt level); distinct non-trivial = distinct (signature, argument modes and values, result use); every call passes at least the call itself through the C callee and the ledger; systematic part: arity 0 with every result kind, arity 1 and last-of-2 with every kind by value and by Referenz; random part arity 2..6; generic extern functions (T = Zahl and T = Text per function, type tag first or last, with and without out-pointer); argument modes literal/temporary, variable, list element, Kombination field, same variable by value and by Referenz; result bound, consumed inline or dropped; callers at top level and inside a function"))
     ck.sample(dict(signature="ret=NT params=v:T,r:B", call='Der Byte b ist (255 als Byte). Der Titel r ist (f "x" b).', expect="out-slot first, Text copy claimed from the literal and released by args[1+1] after the call (the +1 of the free loop), b mutated through the pointer"))
     ck.sample(dict(signature="ret=T params=-", module="importing", expect="declare void @f(%ddpstring*) also through declareImportedFuncDecl; result Text owned by the caller and released once"))
     ck.sample(dict(signature="ret=T params=v:Z,r:TL,v:P", call="f (-1) tl (ein Paar aus 0 und \"häß€😀\")", expect="callee prints -1, the list, the Paar; tl replaced through the reference; copy of the Paar released after the call"))
-    ck.finish(explanation="Generic extern functions: C18_generic_sig_lowering_compat, C18_generic_declaration_generalises, C18_generic_extern_call_ownership (full). "
+    ck.finish(explanation="Frontend tie: C18_declared_spelling_parses (every spelling of every base type parses to the type and IsReference flag it spells; exhaustive spelling leg + "
+              "per-group comparison of parser.Parse's parameter table with the declared signature). Stdlib sweep: every Duden C function with a Text parameter is called with the empty Text "
+              "as {NULL,0} and as {\"\\0\",1} under ASan. Generic extern functions: C18_generic_sig_lowering_compat, C18_generic_declaration_generalises, C18_generic_extern_call_ownership (full). "
               "Found by this check and fixed in /repo (76f45a7): a generic extern function with a generic list as result could not be called; such results are now part of the normal groups. "
               "The theorems of Props/C18.v are full (no _partial/_refuted): C18_sig_lowering_is_abi (both declaration sites, every signature/arity, "
               "ABI-class equality with the published C signature), C18_published_convention, C18_extern_call_ownership (the emitted plan runs without ownership error for every "
